@@ -60,9 +60,11 @@ Definition n_items (id : N) : nat := N.to_nat (desc_X id).     (* (id // 1000) %
    allowance no longer matters, which is why the continuation may use
    [n - n_items] in both cases.
 
-   The factor of a delayed replication is [b.lookup(next_id())] OUTSIDE any
-   try: when the stream has stopped there (list ended or enclosing allowance
-   used up) StopIteration escapes from template_from_ids: [Err EStopIter].
+   The factor of a delayed replication is [b.lookup(next_id())]: when the
+   stream has stopped there (list ended or enclosing allowance used up) the
+   library error "No replication factor follows ..." is raised: [Err ELib]
+   (before "fix: a delayed replication descriptor without a factor ..." the
+   StopIteration escaped).
    The factor is whatever Table B lookup returns for the next id, whatever that
    id is.
 
@@ -92,7 +94,7 @@ Section Build.
               let* (ms, r1) := build_s f (Nat.min (n_items id) n2) rest2 in
               let* (ds, r2) := build_s f (n2 - n_items id) r1 in
               Ok (DCons (DDelayed id (lookup_b tb fid) ms) ds, r2)
-            | _, _ => Err EStopIter
+            | _, _ => Err ELib
             end
           else
             let* (ms, r1) := build_s f (Nat.min (n_items id) n1) rest in
@@ -127,7 +129,7 @@ Section Build.
               let* ms := build_a f (firstn (n_items id) rest2) in
               let* ds := build_a f (skipn (n_items id) rest2) in
               Ok (DCons (DDelayed id (lookup_b tb fid) ms) ds)
-            | [] => Err EStopIter
+            | [] => Err ELib
             end
           else
             let* ms := build_a f (firstn (n_items id) rest) in
@@ -173,7 +175,7 @@ Definition default_fuel (ls : tabD) : nat := S (tabD_size ls).
 Definition lookup_d (tb : tabB) (ls : tabD) (id : N) : result desc :=
   expand_seq tb (default_fuel ls) ls id.
 
-(* loading fails as a whole when one entry fails (StopIteration from a member list
+(* loading fails as a whole when one entry fails (library error from a member list
    ending in a delayed replication descriptor) *)
 Definition all_ids_d (ls : tabD) : list N := map fst (concat ls).
 Fixpoint first_err {A} (rs : list (result A)) : result unit :=
